@@ -57,9 +57,18 @@ def dq(n):
     return t.get("desugaredQualType", t.get("qualType", ""))
 
 
+# driver callbacks of the endpoints: a call through one of these is a call of the prelude's driver script
+FNPTR = {"ByteSource": "drvSrcOctet", "ByteSink": "drvSnkOctet", "ChunkSource": "drvSrcChunk", "ChunkSink": "drvSnkChunk"}
+DRV_OF = {"ByteSource": "SrcDrv", "ChunkSource": "SrcDrv", "ByteSink": "SnkDrv", "ChunkSink": "SnkDrv"}
+# structure fields that hold a driver's private data
+OPAQUE_FIELDS = {("ufw_source", "driver"): "SrcDrv", ("ufw_sink", "driver"): "SnkDrv"}
+
+
 def ctype(q):
-    """('int', width, signed) | ('ptr', elem) | ('void',) | ('rec', name)"""
+    """('int', width, signed) | ('ptr', elem) | ('void',) | ('rec', name) | ('fnptr', typedef name)"""
     q = q.replace("const ", "").replace("volatile ", "").replace(" const", "").strip()
+    if q in FNPTR:
+        return ("fnptr", q)
     seen = 0
     while q in TYPEDEFS and seen < 10:
         q = TYPEDEFS[q].replace("const ", "").strip()
@@ -195,6 +204,10 @@ EXTERNS = {
     # int sink_put_octet(Sink *sink, unsigned char data)
     "sink_put_octet": Iface("sink_put_octet", ("int", 32, True), [("opaque", "Snk"), ("int", ("int", 8, False))], False, needs_fuel=False),
     # ssize_t sink_put_chunk(Sink *sink, const void *buf, size_t n)
+    "drvSrcOctet": Iface("drvSrcOctet", ("int", 32, True), [("opaque", "SrcDrv"), ("block", ("int", 8, False), True)], False, needs_fuel=False),
+    "drvSnkOctet": Iface("drvSnkOctet", ("int", 32, True), [("opaque", "SnkDrv"), ("int", ("int", 8, False))], False, needs_fuel=False),
+    "drvSrcChunk": Iface("drvSrcChunk", ("int", 64, True), [("opaque", "SrcDrv"), ("block", ("int", 8, False), True), ("int", ("int", 64, False))], False, needs_fuel=False),
+    "drvSnkChunk": Iface("drvSnkChunk", ("int", 64, True), [("opaque", "SnkDrv"), ("block", ("int", 8, False), False), ("int", ("int", 64, False))], False, needs_fuel=False),
     "sink_put_chunk": Iface("sink_put_chunk", ("int", 64, True), [("opaque", "Snk"), ("block", ("int", 8, False), False), ("int", ("int", 64, False))], False, needs_fuel=False),
 }
 
@@ -212,7 +225,8 @@ class Fn:
         self.cparams = []
         for p in node.get("inner", []):
             if p.get("kind") == "ParmVarDecl":
-                self.cparams.append((p.get("name", "_"), ctype(dq(p))))
+                qt = p.get("type", {}).get("qualType", "").replace("const ", "").strip()
+                self.cparams.append((p.get("name", "_"), ("fnptr", qt) if qt in FNPTR else ctype(dq(p))))
         self.known = known          # result of the first pass: {'fields': {p: [f..]}, 'written': set(), 'undef': bool}
         self.vars = {}              # scalar / pointer variables: name -> ('int', w, s) | ('ptr', elem)
         self.mem = {}               # pointer variable -> block it points into
@@ -232,6 +246,8 @@ class Fn:
         self.uses_undef = False
         self.nundef = 0
         self.break_stack = []
+        self.continue_stack = []
+        self.fnptrs = {}            # function pointer parameter -> typedef name
 
     # ------------------------------------------------------------------ bookkeeping
     def fresh(self):
@@ -301,6 +317,19 @@ class Fn:
                 if self.vars[name][0] == "int":
                     return ("var", name, self.vars[name])      # member of a local union: the cell itself
         raise Unavailable("lvalue " + str(k))
+
+    def struct_root(self, e):
+        cur = e
+        while cur.get("kind") == "MemberExpr":
+            if cur.get("isArrow"):
+                root = cur["inner"][0]
+                while root.get("kind") in ("ImplicitCastExpr", "ParenExpr"):
+                    root = root["inner"][0]
+                if root.get("kind") == "DeclRefExpr" and root["referencedDecl"]["name"] in self.structs:
+                    return root["referencedDecl"]["name"]
+                return None
+            cur = self.strip_paren(cur["inner"][0])
+        return None
 
     def struct_path(self, e):
         """(parameter, 'a.b.c') when e is p->a.b.c for a structure pointer parameter p (members of unions inside alias)"""
@@ -379,6 +408,11 @@ class Fn:
             if ctype(dq(l))[0] == "ptr":
                 b, i, t = self.pointer(l)
                 return b, "(%s + (%s).toNat)" % (i, self.expr(r)), t
+        if k == "BinaryOperator" and e["opcode"] == "-":
+            l, r = e["inner"]
+            if ctype(dq(l))[0] == "ptr" and ctype(dq(r))[0] == "int":
+                b, i, t = self.pointer(l)
+                return b, "(%s - (%s).toNat)" % (i, self.expr(r)), t
         if k == "UnaryOperator" and e["opcode"] == "&":
             raise Unavailable("address of a variable outside a call")
         raise Unavailable("pointer expression " + str(k))
@@ -476,7 +510,12 @@ class Fn:
             raise Unavailable("operator " + op)
         if k == "ConditionalOperator":
             c, a, b = e["inner"]
-            return "(if %s then %s else %s)" % (self.cond(c), self.expr(a), self.expr(b))
+            cc = self.cond(c)
+            n0 = len(self.pending)
+            ta, tb = self.expr(a), self.expr(b)
+            if len(self.pending) != n0:
+                raise Unavailable("load or call inside ?:")
+            return "(if %s then %s else %s)" % (cc, ta, tb)
         if k == "CallExpr":
             v = self.call(e)
             if v is None:
@@ -542,6 +581,13 @@ class Fn:
         while callee.get("kind") in ("ImplicitCastExpr", "ParenExpr"):
             callee = callee["inner"][0]
         name = callee.get("referencedDecl", {}).get("name")
+        if callee.get("kind") == "DeclRefExpr" and name in self.fnptrs:
+            name = FNPTR[self.fnptrs[name]]                       # a call through a driver callback handed in
+        elif callee.get("kind") == "MemberExpr":
+            ft = callee.get("type", {}).get("qualType", "").replace("const ", "").strip()
+            if ft not in FNPTR or self.struct_root(callee) is None:
+                raise Unavailable("call through " + ft)
+            name = FNPTR[ft]                                      # a call through a callback stored in an endpoint
         if name in self.unit.ifaces:
             iface = self.unit.ifaces[name]
             self.calls.add(name)
@@ -556,6 +602,11 @@ class Fn:
         if len(actual) != len(iface.comps):
             raise Unavailable("call of %s with %d arguments" % (name, len(actual)))
         for a, c in zip(actual, iface.comps):
+            if c[0] == "fnptr":
+                at = a.get("type", {}).get("qualType", "").replace("const ", "").strip()
+                if at != c[1]:
+                    raise Unavailable("callback of another kind")
+                continue                                           # the callback itself is the prelude's driver: no argument
             if c[0] == "int":
                 args.append(self.expr(a))
             elif c[0] == "block":
@@ -600,9 +651,18 @@ class Fn:
                 root = a
                 while root.get("kind") in ("ImplicitCastExpr", "ParenExpr"):
                     root = root["inner"][0]
-                if root.get("kind") != "DeclRefExpr" or root["referencedDecl"]["name"] not in self.opaques:
+                if root.get("kind") == "MemberExpr" and self.struct_path(root) is not None:
+                    sp = self.struct_path(root)
+                    fv = self.field(sp[0], sp[1])
+                    if fv[0] != "opq":
+                        raise Unavailable("opaque argument that is not driver data")
+                    p = fv[1]
+                elif root.get("kind") == "DeclRefExpr" and root["referencedDecl"]["name"] in self.opaques:
+                    p = root["referencedDecl"]["name"]
+                else:
                     raise Unavailable("opaque argument that is not a parameter")
-                p = root["referencedDecl"]["name"]
+                if self.opaques[p] != c[1]:
+                    raise Unavailable("driver data of another kind")
                 args.append(p)
                 self.written.add(p)
                 rebind.append(lambda o, n=p: "let %s := %s" % (n, o))
@@ -744,6 +804,20 @@ class Fn:
         if k == "ReturnStmt":
             if "inner" not in s:
                 return pad + self.result("()")
+            co = s["inner"][0]
+            wrappers = []
+            while co.get("kind") in ("ImplicitCastExpr", "ParenExpr", "CStyleCastExpr") and co.get("kind") != "ConditionalOperator":
+                wrappers.append(co)
+                co = co["inner"][0]
+            if co.get("kind") == "ConditionalOperator" and self.has_call(co):
+                # `return c ? f(..) : g(..);` - only the chosen arm runs
+                def arm(x):
+                    for w in reversed(wrappers):
+                        x = dict(w, inner=[x])
+                    return {"kind": "ReturnStmt", "inner": [x]}
+                c, a, b = co["inner"]
+                fake = {"kind": "IfStmt", "inner": [c, arm(a), arm(b)]}
+                return self.stmts([fake] + rest, ind, end)
             term = self.expr(s["inner"][0])
             return self.flush(pad) + pad + self.result(term)
         if k == "IfStmt":
@@ -810,6 +884,16 @@ class Fn:
                 finally:
                     self.break_stack = stack
             self.break_stack.append(brk)
+            cdepth = len(self.continue_stack)
+
+            def cont_loop(i2):
+                # `continue`: the increment of a `for`, then round again - with the variables as they are here
+                keep = list(self.scope)
+                try:
+                    return again(i2)
+                finally:
+                    self.scope = keep
+            self.continue_stack.append(cont_loop)
             if cnd and cnd.get("kind"):
                 c = self.cond(cnd)
                 cpre = self.flush("    ")
@@ -821,6 +905,7 @@ class Fn:
                 del self.scope[nscope:]
                 self.vars, self.mem = dict(saved[0]), dict(saved[1])
             del self.break_stack[depth:]
+            del self.continue_stack[cdepth:]
             self.loops.append((lname, params, text))
             del self.scope[mark:]
             self.vars, self.mem = dict(saved[0]), dict(saved[1])
@@ -833,6 +918,14 @@ class Fn:
             snap = (dict(self.vars), dict(self.mem), list(self.scope))
             try:
                 return self.break_stack[-1](ind)
+            finally:
+                self.vars, self.mem, self.scope = snap
+        if k == "ContinueStmt":
+            if not self.continue_stack or self.continue_stack[-1] is None:
+                raise Unavailable("continue")
+            snap = (dict(self.vars), dict(self.mem), list(self.scope))
+            try:
+                return self.continue_stack[-1](ind)
             finally:
                 self.vars, self.mem, self.scope = snap
         if k == "DoStmt":
@@ -861,7 +954,7 @@ class Fn:
                 del self.break_stack[depth:]
         if k == "SwitchStmt":
             return self.switch(s, rest, ind, end)
-        if k in ("ContinueStmt", "GotoStmt", "LabelStmt"):
+        if k in ("GotoStmt", "LabelStmt"):
             raise Unavailable(k)
         t = self.simple(s, pad)
         if t is None:
@@ -942,8 +1035,13 @@ class Fn:
         finally:
             del self.break_stack[depth:]
 
+    def has_call(self, n):
+        if n.get("kind") == "CallExpr":
+            return True
+        return any(self.has_call(c) for c in n.get("inner", []))
+
     def forbid_jumps(self, n):
-        if n.get("kind") in ("ContinueStmt", "GotoStmt"):
+        if n.get("kind") in ("GotoStmt",):
             raise Unavailable(n["kind"] + " in a loop")
         for c in n.get("inner", []):
             self.forbid_jumps(c)
@@ -953,15 +1051,27 @@ class Fn:
         """Lean parameters, in C parameter order; declares the variables"""
         sig, lets, comps = [], [], []
         written = self.known["written"] if self.known else set()
+        fn_kinds = [t[1] for _, t in self.cparams if t[0] == "fnptr"]
         for n, t in self.cparams:
+            if t[0] == "fnptr":
+                self.fnptrs[n] = t[1]
+                comps.append(("fnptr", t[1]))
+                continue
+            if t[0] == "ptr" and n == "driver" and len(fn_kinds) == 1:
+                # the private data handed to the one callback of this function: the prelude's driver script
+                lt = DRV_OF[fn_kinds[0]]
+                self.opaques[n] = lt
+                sig.append("(%s : %s)" % (n, lt))
+                comps.append(("opaque", lt))
+                continue
             if t[0] == "int":
                 sig.append("(%s : %s)" % (n, bv(t)))
                 self.declare(n, t)
                 comps.append(("int", t))
-            elif t[0] == "ptr" and t[1][0] == "rec" and t[1][1] in OPAQUE:
-                self.opaques[n] = OPAQUE[t[1][1]]
-                sig.append("(%s : %s)" % (n, OPAQUE[t[1][1]]))
-                comps.append(("opaque", OPAQUE[t[1][1]]))
+            elif t[0] == "ptr" and t[1][0] == "rec" and t[1][1] in self.unit.opaque:
+                self.opaques[n] = self.unit.opaque[t[1][1]]
+                sig.append("(%s : %s)" % (n, self.unit.opaque[t[1][1]]))
+                comps.append(("opaque", self.unit.opaque[t[1][1]]))
             elif t[0] == "ptr" and t[1][0] == "rec" and not RECORDS[t[1][1]][0]:
                 rec = t[1][1]
                 self.structs[n] = rec
@@ -971,7 +1081,12 @@ class Fn:
                     if used is not None and f not in used:
                         continue
                     lean = "%s_%s" % (n, f.replace(".", "_"))
-                    if ft[0] == "int":
+                    if ft[0] == "opq":
+                        sig.append("(%s : %s)" % (lean, ft[1]))
+                        self.fieldvar[(n, f)] = ("opq", lean, ft[1])
+                        self.opaques[lean] = ft[1]
+                        fl.append((f, ("opq", ft[1], True)))
+                    elif ft[0] == "int":
                         sig.append("(%s : %s)" % (lean, bv(ft)))
                         self.fieldvar[(n, f)] = ("var", lean, ft)
                         self.declare(lean, ft)
@@ -1001,6 +1116,9 @@ class Fn:
         """[(path, type)] of the scalar / pointer leaves of a record, nested structures flattened, unions as one cell"""
         out = []
         for f, fq in RECORDS[rec][1]:
+            if (rec, f) in OPAQUE_FIELDS:
+                out.append((prefix + f, ("opq", OPAQUE_FIELDS[(rec, f)])))
+                continue
             try:
                 ft = ctype(fq)
             except Unavailable:
@@ -1029,7 +1147,7 @@ class Fn:
             elif n in self.structs:
                 for f, ft in self.flat_fields(self.structs[n], ""):
                     fv = self.fieldvar.get((n, f))
-                    if fv and fv[1] in written:
+                    if fv and (fv[1] in written or fv[0] == "opq"):
                         out.append(fv[1])
             elif t[0] == "ptr" and (n + "_mem") in written:
                 out.append(n + "_mem")
@@ -1125,9 +1243,10 @@ def translate_fn(node, unit):
 
 class Unit:
     """one C file"""
-    def __init__(self, src, want):
+    def __init__(self, src, want, opaque=None):
         self.src = src
         self.want = want
+        self.opaque = OPAQUE if opaque is None else opaque
         self.fn_nodes, self.tables = parse(src)
         self.used_tables = set()
         self.ifaces = {}
@@ -1299,9 +1418,35 @@ def slip_tie_modules():
     return ["Ufw.Tie.SlipFns.Common"] + [m for f, m in SLIP_TIE.items() if SLIP_STATUS.get(f) == "translated"]
 
 
+# ---------------------------------------------------------------------------------------------------------------
+# src/endpoints/core.c: octet / chunk access to sources and sinks
+# ---------------------------------------------------------------------------------------------------------------
+
+ENDP_SRC = "src/endpoints/core.c"
+ENDP_TIE = {
+    "sink_adapt": "Ufw.Tie.EndpFns.SinkAdapt", "source_adapt": "Ufw.Tie.EndpFns.SourceAdapt",
+}
+ENDP_WANT = ["source_get_octet", "sink_put_octet", "source_adapt", "sink_adapt", "once_source_get_chunk", "once_sink_put_chunk",
+             "source_get_chunk", "sink_put_chunk", "source_get_chunk_atmost", "sink_put_chunk_atmost"]
+ENDP_STATUS = {}
+
+
+def endp_gen():
+    u = Unit(ENDP_SRC, ENDP_WANT, opaque={})      # here a Source / Sink is a structure: kind, driver data, callbacks
+    status, defs = u.translate()
+    write("EndpFns", ENDP_SRC, defs)
+    ENDP_STATUS.clear()
+    ENDP_STATUS.update(status)
+    return {"cloops:" + k: v for k, v in status.items()}
+
+
+def endp_tie_modules():
+    return ["Ufw.Tie.EndpFns.Common"] + [m for f, m in ENDP_TIE.items() if ENDP_STATUS.get(f) == "translated"]
+
+
 if __name__ == "__main__":
     which = sys.argv[1] if len(sys.argv) > 1 else "crc"
-    st = {"crc": crc_gen, "varint": varint_gen, "regp": regp_gen, "slip": slip_gen}[which]()
+    st = {"crc": crc_gen, "varint": varint_gen, "regp": regp_gen, "slip": slip_gen, "endp": endp_gen}[which]()
     for k, v in st.items():
         print(k, v)
-    print(open(os.path.join(vf.LEAN, "Ufw/Gen/%s.lean" % {"crc": "CrcLoops", "varint": "VarintLoops", "regp": "RegpFns", "slip": "SlipFns"}[which])).read()[-9000:])
+    print(open(os.path.join(vf.LEAN, "Ufw/Gen/%s.lean" % {"crc": "CrcLoops", "varint": "VarintLoops", "regp": "RegpFns", "slip": "SlipFns", "endp": "EndpFns"}[which])).read()[-9000:])
